@@ -499,12 +499,15 @@ func baseUnpack(L *LState) int {
 	tb := L.CheckTable(1)
 	start := L.OptInt(2, 1)
 	end := L.OptInt(3, tb.Len())
-	for i := start; i <= end; i++ {
-		L.Push(tb.RawGetInt(i))
+	if start > end {
+		return 0 // empty range
 	}
 	ret := end - start + 1
-	if ret < 0 {
-		return 0
+	if ret <= 0 { // the count does not fit an int
+		L.RaiseError("too many results to unpack")
+	}
+	for i := start; i <= end; i++ {
+		L.Push(tb.RawGetInt(i))
 	}
 	return ret
 }
